@@ -161,7 +161,16 @@ def m4_molecule_strict_is_canonical(S):
         MM.fixed_type(S, ob, t)
 
 
-OBLIGATIONS = [m1_extra_hash, m2_hash_inputs, m3_json_block_extension, m4_molecule_strict_is_canonical]
+def m5_molecule_builders_write_canonical_layout(S):
+    """encode side: every generated builder writes the canonical layout of its fields' bytes (total size, offsets derived from the
+    field lengths, fields back to back in schema order; vectors with 0..2 items; every union arm; option none/some)"""
+    from obligations import molecule_m as MM
+    ob = "C15.m5"
+    for t in MM.ORDER:
+        MM.builder_layout(S, ob, t)
+
+
+OBLIGATIONS = [m1_extra_hash, m2_hash_inputs, m3_json_block_extension, m4_molecule_strict_is_canonical, m5_molecule_builders_write_canonical_layout]
 
 _P = os.path.join(os.path.dirname(__file__), "..", "kani", "molecule", "gen_molecule.json")
 _OKFILE = os.path.join(os.path.dirname(__file__), "..", "kani", "molecule", "feasible.json")
@@ -182,11 +191,11 @@ EXPLANATION = ("Hash commitments as dataflow facts over the real MIR (which byte
                "extension, and canonical-form harnesses over the generated molecule readers for the schema types CBMC can finish.")
 BOUNDS = {"M": "dataflow obligations: no numeric bound. Molecule obligations (m4): byte slices of ANY length; every type of the three schema files; per table at most 1 extra field, per dynamic vector at most 2 items (inputs beyond are excluded by the `out` condition)",
           "K": "byte strings up to the per-type buffer length written in each harness bound; only types listed in kani/molecule/feasible.json",
-          "outside": "collision resistance; serde_json text layer; molecule builders/entities (Bytes vtables exhaust CBMC memory: measured); encode side of the round trip"}
+          "outside": "collision resistance; serde_json text layer; byte-level content equality of the round trip (decided at the layout level: builders write the canonical layout, strict decoding accepts exactly canonical layouts and getters return the field ranges)"}
 ASSUMPTIONS = ["blake2b is an opaque function of the sequence of its update() arguments", "as_slice/as_reader/raw accessors are environment symbols named by their receiver"]
 TRUSTED = []
 LEVEL_TEXT = ("Decides (a) the commitment structure of tx/witness/header/pow/script/extra hashes, (b) extension handling of the JSON block conversion and (c) for every molecule schema type that "
               "strict decoding accepts exactly the canonical encodings (SMT over the MIR of the generated verify functions, modular over the schema) ; (d) Kani harnesses for five small types. "
-              "Builders (the encode side) and the JSON text layer are outside.")
-LEVEL_NOTE = "Decode side only: `accepted by from_slice <=> canonical layout` for all schema types within stated count bounds; builders, JSON text, collision resistance not covered."
+              "(e) every generated builder writes the canonical layout of its fields (encode side). The JSON text layer is outside.")
+LEVEL_NOTE = "Round trip decided at the layout level for all schema types within stated count bounds (<=1 extra field, <=2 vector items, field lengths < 2^28); JSON text and collision resistance not covered."
 TECHNIQUE = "symbolic execution of rustc MIR (dataflow) -> SMT, plus Kani/CBMC harnesses generated from the molecule schema"
